@@ -758,6 +758,10 @@ class BaseConnector:
             if self._available_connections(key) > 0:
                 break
             attempts += 1
+            # We were woken but cannot use the slot (e.g. the per-host limit
+            # was reached by an earlier woken waiter): pass the wake-up on
+            # to a waiter that can use it before waiting again.
+            self._release_waiter()
 
     async def _get(
         self, key: "ConnectionKey", traces: list["Trace"]
